@@ -70,11 +70,22 @@ func HarnessC03Skeleton() {
 	site := sites.scalars[verifChoose("scalar", len(sites.scalars))]
 	// the placeholder is written plain, in single quotes or in double quotes
 	site.node.Tag, site.node.Style = "!!str", []yaml.Style{0, yaml.SingleQuotedStyle, yaml.DoubleQuotedStyle}[verifChoose("style", 3)]
-	site.node.Value = verifBadExpr
+	// the placeholder is the whole value, or has text before and after it, or follows a well-formed one
+	emb := verifChoose("embedded", 3)
+	site.node.Value = []string{verifBadExpr, "x " + verifBadExpr + " y", "${{ 1 }} " + verifBadExpr}[emb]
 	verifPlace(doc, 1, 0)
 	errs := verifLintNode(doc, verifRules())
 	verifReach("site")
-	verifCheckPlaceholder(errs, site.node, verifExempt(site.ctx, site.key))
+	// with text around it the value is not a number / boolean any more: those positions report that instead
+	verifCheckPlaceholder(errs, site.node, emb != 0 || verifExempt(site.ctx, site.key))
+	// a rejected placeholder yields exactly one expression diagnostic (C04), not several copies of it
+	expr := 0
+	for _, e := range errs {
+		if e.Line == site.node.Line && e.Kind == "expression" {
+			expr++
+		}
+	}
+	verifCheck(expr <= 1, "rejected-placeholder-diagnosed-more-than-once")
 }
 
 // HarnessC03Replace: the value of every existing entry of every mapping of the
@@ -287,4 +298,45 @@ func HarnessC03Testdata(c, n int) {
 	errs := verifLintNode(doc, verifRules())
 	verifReach("site")
 	verifCheckPlaceholder(errs, site.node, verifExempt(site.ctx, site.key))
+}
+
+// HarnessC03CallInputs: the with: values of a call of a local reusable workflow
+// whose interface is known, for inputs declared with each type (string,
+// number, boolean, no type = any) and for an undeclared one: a malformed
+// placeholder as the value is diagnosed at that value.
+func HarnessC03CallInputs() {
+	proj := &Project{root: "/r"}
+	cache := NewLocalReusableWorkflowCache(proj, "/r", nil)
+	cache.cache["./.github/workflows/callee.yml"] = &ReusableWorkflowMetadata{
+		Inputs: ReusableWorkflowMetadataInputs{
+			"str":    {Name: "str", Type: StringType{}},
+			"num":    {Name: "num", Type: NumberType{}},
+			"flag":   {Name: "flag", Type: BoolType{}},
+			"flavor": {Name: "flavor", Type: AnyType{}},
+		},
+		Secrets: ReusableWorkflowMetadataSecrets{"tok": {Name: "tok"}},
+		Outputs: ReusableWorkflowMetadataOutputs{},
+	}
+	keys := []string{"str", "num", "flag", "flavor", "undeclared"}
+	k := verifChoose("input", len(keys)+1)
+	s := yScalar
+	bad := s([]string{verifBadExpr, "x " + verifBadExpr + " y"}[verifChoose("embedded", 2)])
+	var with []*yaml.Node
+	for i, key := range keys {
+		v := s("1")
+		if i == k {
+			v = bad
+		}
+		with = append(with, s(key), v)
+	}
+	secret := s("v")
+	if k == len(keys) {
+		secret = bad
+	}
+	doc := yDoc(yMap(s("on"), s("push"), s("jobs"), yMap(s("c"), yMap(s("uses"), s("./.github/workflows/callee.yml"), s("with"), yMap(with...), s("secrets"), yMap(s("tok"), secret)))))
+	verifPlace(doc, 1, 0)
+	la := NewLocalActionsCache(proj, nil)
+	errs := verifLintNode(doc, []Rule{NewRuleWorkflowCall("/r/.github/workflows/w.yml", cache), NewRuleExpression(la, cache)})
+	verifReach("site")
+	verifCheckPlaceholder(errs, bad, false)
 }
